@@ -24,7 +24,7 @@ class Boom(Exception):
 
 
 def alphabet(nports):
-    a = ["start", "stop", "ctx_ok", "ctx_exc", "send_then_stop"]
+    a = ["start", "stop", "ctx_ok", "ctx_exc", "send_then_stop", "send_yield_stop", "stop_from_callback"]
     for i in range(nports):
         a += [f"send{i}", f"occupy{i}", f"release{i}"]
     return a
@@ -43,7 +43,7 @@ def legal(history, nports):
                 running = True if (not occ or running) else False
         elif a == "stop":
             running = False
-        elif a == "send_then_stop":
+        elif a in ("send_then_stop", "send_yield_stop", "stop_from_callback"):
             if not running:
                 return False
             running = False
@@ -64,7 +64,8 @@ class C17(Prop):
     id = "C17"
     level = "fault_enumeration"
     technique = "action/fault histories on a real bridge; after every action: flag-vs-model, bind probe per port, sentinel delivery; end-of-history no-late-callback check"
-    rule = ("history over {start, stop, async-with (normal body / raising body), send-then-stop-without-yielding, send to port i, occupy port i "
+    rule = ("history over {start, stop, async-with (normal body / raising body), send-then-stop-without-yielding, send-yield-once-or-twice-then-stop, "
+            "stop requested from inside the user callback during a burst, send to port i, occupy port i "
             "with a foreign socket, release port i}; all legal histories of length <= 4 (1 port) and <= 3 (2 ports; <= 4 in thorough) are "
             "enumerated, longer random ones over 1..4 ports sampled; an independent bridge on another port runs throughout and must keep delivering; distinct = (ports, history); non-trivial = histories containing a bind "
             "failure, a restart, a raising body or traffic while stopped")
@@ -248,6 +249,60 @@ class C17(Prop):
                         must_not_deliver[tag] = n   # stop() follows without yielding to the loop
                     await bridge.stop()
                     trace.append("send_then_stop")
+                    model = False
+                elif a == "send_yield_stop":
+                    # traffic is in flight, the loop gets one or two turns (a datagram may be read, its dispatch may be pending), then stop:
+                    # whatever was delivered before stop returned is fine, nothing may be delivered after it
+                    mine = []
+                    for p in ports:
+                        for _ in range(3):
+                            tag, data = self._tagged()
+                            self.rig.send(p, data)
+                            mine.append(tag)
+                    for _ in range(1 + n % 2):
+                        await asyncio.sleep(0)
+                    await bridge.stop()
+                    done_before = set(delivered_tags())
+                    for tag in mine:
+                        if tag not in done_before:
+                            must_not_deliver[tag] = n
+                    trace.append(f"send_yield_stop ({len(done_before & set(mine))} of {len(mine)} delivered before stop returned)")
+                    model = False
+                elif a == "stop_from_callback":
+                    # re-entrancy: the user's callback asks for the bridge to be stopped when it sees the first of a burst
+                    mine, state = [], {"task": None}
+                    for p in ports:
+                        for _ in range(4):
+                            tag, data = self._tagged()
+                            mine.append(tag)
+                    first = mine[0]
+
+                    def hook(dev, count):
+                        if dev.device_id == first and state["task"] is None:
+                            state["task"] = asyncio.ensure_future(bridge.stop())
+                        return False
+
+                    log.raise_on = hook
+                    k = 0
+                    for p in ports:
+                        for _ in range(4):
+                            d = {"model": "V2_ESP", "device_id": mine[k], "device_key": "01", "name": "burst", "ip": "10.0.0.2", "mac": "00:11:22:33:44:66",
+                                 "state": "OFF", "power": 0, "remaining": 0, "auto_shutdown": 3600}
+                            self.rig.send(p, rb.encode(d))
+                            k += 1
+                    for _ in range(400):
+                        if state["task"] is not None and state["task"].done():
+                            break
+                        await asyncio.sleep(0)
+                    log.raise_on = None
+                    if state["task"] is None or not state["task"].done():
+                        acc.count("stop_from_callback_not_triggered")
+                        await bridge.stop()
+                    done_before = set(delivered_tags())
+                    for tag in mine:
+                        if tag not in done_before:
+                            must_not_deliver[tag] = n
+                    trace.append(f"stop_from_callback ({len(done_before & set(mine))} of {len(mine)} delivered before stop returned)")
                     model = False
                 elif a.startswith("send"):
                     idx = int(a[4:])
